@@ -21,6 +21,19 @@ const nullGroupKeyMarker = "\x00NULL"
 // 分隔符导致的键碰撞（曾用 "|"：含 "|" 的值会被还原阶段截断、多字段还会错位）。
 const groupKeySep = "\x1f"
 
+// groupKeyEscaper escapes, inside one grouping value, the field separator, the
+// lead byte of the NULL marker and the escape character itself, so that no
+// value can imitate a separator or the NULL marker (distinct tuples never
+// share a key). Values without these bytes are left unchanged.
+var groupKeyEscaper = strings.NewReplacer("\\", "\\\\", groupKeySep, "\\"+groupKeySep, "\x00", "\\\x00")
+
+func escapeGroupKeyPart(s string) string {
+	if !strings.ContainsAny(s, groupKeySep+"\x00\\") {
+		return s
+	}
+	return groupKeyEscaper.Replace(s)
+}
+
 // Aggregator aggregator interface
 type Aggregator interface {
 	Add(data any) error
@@ -219,9 +232,9 @@ func (ga *GroupAggregator) Add(data any) error {
 		}
 
 		if str, ok := fieldVal.(string); ok {
-			key += str + groupKeySep
+			key += escapeGroupKeyPart(str) + groupKeySep
 		} else {
-			key += fmt.Sprintf("%v", fieldVal) + groupKeySep
+			key += escapeGroupKeyPart(fmt.Sprintf("%v", fieldVal)) + groupKeySep
 		}
 		keyVals = append(keyVals, fieldVal)
 	}
